@@ -40,10 +40,8 @@ func jobsFor(prop, tier string) []Job {
 		}
 		if thorough {
 			js = append(js, mk("c01-n4-drain", params("N", 4, "KEYS", 2, "DRAIN", 1, "L0MAX", 2), false, 0),
-				mk("c01-n3-drain-ops2-k3", params("N", 3, "KEYS", 3, "DRAIN", 1, "OPS2", 1, "KINDS", 3), false, 0),
-				mk("c01-n5-drain", params("N", 5, "KEYS", 2, "DRAIN", 1, "IBMAX", 2, "L0MAX", 2, "RATIOMAX", 2), false, 0),
-				mk("c01-n4-drain-ops2-k3", params("N", 4, "KEYS", 3, "DRAIN", 1, "OPS2", 1, "KINDS", 3, "K0", 1), false, 0),
-				mk("c01-n5-lazy", params("N", 5, "KEYS", 2, "DRAIN", 0, "K0", 3, "IBMAX", 2), false, 0),
+				mk("c01-n3-drain-ops2-k3", params("N", 3, "KEYS", 3, "DRAIN", 1, "OPS2", 1, "KINDS", 2, "IBMAX", 0, "BLKMAX", 0), false, 0),
+				mk("c01-n4-lazy", params("N", 4, "KEYS", 2, "DRAIN", 0, "K0", 3, "IBMAX", 2), false, 0),
 				mk("c01-n4-eager", params("N", 4, "KEYS", 2, "DRAIN", 0, "K0", 0, "L0MAX", 2), true, 0),
 				mk("c01-n3-sched2", params("N", 3, "KEYS", 2, "DRAIN", 0), false, 2))
 		}
@@ -168,7 +166,7 @@ func jobsFor(prop, tier string) []Job {
 			mk("txn-2-reader-writer-extracommit-gc", params("NT", 2, "LIBFIX", 23, "K0", 0, "EXTRA", 1, "IBMAX", 0, "BLKMAX", 0, "REOPEN", 0)),
 		}
 		if thorough {
-			js = append(js, mk("txn-3-short", params("NT", 3, "LIB0", 0, "LIB", 5, "K0", 1, "BLKMAX", 0, "IBMAX", 0, "REOPEN", 0)),
+			js = append(js, mk("txn-3-short", params("NT", 3, "LIB0", 2, "LIB", 3, "K0", 1, "BLKMAX", 0, "IBMAX", 0, "REOPEN", 0)),
 				mk("txn-2-updateerr", params("NT", 2, "LIB0", 2, "LIB", 2, "K0", 1, "UPDATEERR", 1, "IBMAX", 0, "BLKMAX", 0)),
 				mk("txn-2-extracommit-gc", params("NT", 2, "LIB0", 2, "LIB", 2, "K0", 0, "EXTRA", 1, "IBMAX", 0, "BLKMAX", 0, "REOPEN", 0)),
 				mk("txn-2-all", params("NT", 2, "LIB", 12, "K0", 3, "IBMAX", 0, "BLKMAX", 0)),
@@ -286,12 +284,9 @@ func jobsFor(prop, tier string) []Job {
 		if thorough {
 			js = append(js,
 				mk("c09-2r-2x1-l1merge", params("R", 2, "T", 2, "E", 1, "L0T", 1, "RATIO", 2, "WM", 0)),
-				mk("c09-2r-2x1-cascade-recover", params("R", 2, "T", 2, "E", 1, "L0T", 1, "RATIO", 1, "RECOVER", 1, "WM", 0, "MAXTS", 3)),
 				mk("c09-1r-1+1+2-l0t2", params("R", 1, "T", 3, "ES", 112, "L0T", 2, "RATIO", 2, "WM", 0)),
 				mk("c09-1r-2x2", params("R", 1, "T", 2, "E", 2, "L0T", 1, "RATIO", 2)),
-				mk("c09-1r-3x1", params("R", 1, "T", 3, "E", 1, "L0T", 2, "RATIO", 2)),
 				mk("c09-1r-2+1-k2", params("R", 1, "T", 2, "ES", 21, "L0T", 1, "RATIO", 2, "KL2", 2, "QKL", 2)),
-				mk("c09-1r-1+2-k2mid", params("R", 1, "T", 2, "ES", 12, "L0T", 1, "RATIO", 2, "KLMASK", 4, "QKL", 2)),
 				mk("c09-1r-2+1-k2first", params("R", 1, "T", 2, "ES", 21, "L0T", 1, "RATIO", 2, "KLMASK", 1)),
 				mk("c09-2r-2x1-l1merge-wm", params("R", 2, "T", 2, "E", 1, "L0T", 1, "RATIO", 2)),
 				mk("c09-1r-2+1-ts99", params("R", 1, "T", 2, "ES", 21, "L0T", 1, "RATIO", 2, "MAXTS", 99)),
@@ -321,7 +316,6 @@ func jobsFor(prop, tier string) []Job {
 			js = append(js,
 				mk("c10-1x4", params("T", 1, "E", 4)),
 				mk("c10-2x2-k2", params("T", 2, "E", 2, "KL2", 2, "QKL", 2)),
-				mk("c10-2x3", params("T", 2, "E", 3)),
 				mk("c10-2x2-recover", params("T", 2, "E", 2, "RECOVER", 1)),
 				mk("c10-3x1-levels3-recover", params("T", 3, "E", 1, "LEVELS", 3, "RECOVER", 1)),
 			)
@@ -420,7 +414,7 @@ func jobsFor(prop, tier string) []Job {
 				mk("c16-n8", params("N", 8, "KL", 1, "STEP", 1)),
 				mk("c16-n6-long", params("N", 6, "KL", 4, "STEP", 1)),
 				mk("c16-n5000-sym2", params("N", 5000, "KL", 8, "STEP", 1, "SYM", 2)),
-				mk("c16-n4-decode", params("N", 4, "KL", 2, "STEP", 3, "DECODE", 1, "DUP", 1)),
+				mk("c16-n3-decode-dup", params("N", 3, "KL", 2, "STEP", 3, "DECODE", 1, "DUP", 1)),
 				mk("c16-n3-nonmember", params("N", 3, "KL", 2, "STEP", 3, "NONMEMBER", 1)),
 			)
 		}
